@@ -19,6 +19,14 @@ LEDGER_MODELS = [
 ]
 
 
+# long random walks of the ledger model (tlc -simulate): behaviours of 60 instructions from the risk seed, every step predicted and replayed
+WALK_MODELS = [
+    {"name": "ledgerwalk", "module": "MC_Ledger.tla", "cfg": {"quick": "MC_LedgerWalkQuick.cfg", "thorough": "MC_LedgerWalkThorough.cfg"},
+     "setup": "setups/riskmodel.json", "init_from_setup": True, "simulate": {"quick": [6, 40], "thorough": [60, 60]},
+     "timeout": {"quick": 900, "thorough": 10000}},
+]
+
+
 VENUE_MODELS = [
     {"name": "venue", "module": "MC_Venue.tla", "cfg": {"quick": "MC_VenueQuick.cfg", "thorough": "MC_VenueThorough.cfg"},
      "setup": "setups/venue.json", "init_from_setup": True, "timeout": {"quick": 900, "thorough": 7200}},
@@ -270,7 +278,7 @@ PROPS = {
     "C13": risk_prop2(["add_bank", "add_bank_staked", "add_bank_kamino", "add_bank_drift", "add_bank_solend", "init_staked_settings", "edit_staked_settings", "propagate_staked", "configure_bank", "configure_emode", "borrow", "withdraw", "pulse_health", "bankruptcy", "clone_emode"],
                       LIQ_DRIVERS + RISK_DRIVERS + ADMIN_DRIVERS + STAKED_DRIVERS + KAMINO_DRIVERS + EDGE_DRIVERS, models=RISK_MODELS + CONFIG_MODELS + RISKCFG_MODELS),
     "C14": risk_prop2(["deposit", "withdraw", "borrow", "repay", "liquidate", "bankruptcy", "propagate_fee"], LIQ_DRIVERS + RISK_DRIVERS + EDGE_DRIVERS, models=GATE_MODELS),
-    "C01": dict(ledger_prop(), drivers=LEDGER_DRIVERS + EDGE_DRIVERS + LIQ_DRIVERS, models=LEDGER_MODELS + WIND_MODELS),
+    "C01": dict(ledger_prop(), drivers=LEDGER_DRIVERS + EDGE_DRIVERS + LIQ_DRIVERS, models=LEDGER_MODELS + WIND_MODELS + WALK_MODELS),
     "C02": dict(ledger_prop(extra_ops=["purge", "transfer_account", "kamino_deposit", "kamino_withdraw", "drift_deposit", "drift_withdraw", "solend_deposit", "solend_withdraw"]), drivers=LEDGER_DRIVERS + LIQ_DRIVERS + ADMIN_DRIVERS + KAMINO_DRIVERS + EDGE_DRIVERS, models=LEDGER_MODELS + VENUE_MODELS + LIFE_MODELS + WIND_MODELS),
     "C03": dict(ledger_prop(extra_ops=["kamino_deposit", "kamino_withdraw", "drift_deposit", "drift_withdraw", "solend_deposit", "solend_withdraw"]), drivers=LEDGER_DRIVERS + KAMINO_DRIVERS + EDGE_DRIVERS, models=LEDGER_MODELS + VENUE_MODELS),
     "C06": dict(ledger_prop(), models=LEDGER_MODELS + FEECFG_MODELS, drivers=LEDGER_DRIVERS + EDGE_DRIVERS + [{"name": "caps", "args": {"quick": [200], "thorough": [4000]}}]),
